@@ -3,6 +3,7 @@ package props
 import (
 	"context"
 	"fmt"
+	"strings"
 	"sync"
 
 	"verif/harness/evid"
@@ -34,10 +35,17 @@ func c14Prop(slot uint64, fill byte) c14Duty {
 	return c14Duty{prop: &rules.SignBeaconProposalData{Domain: Dom(DomainProposer, 0), Slot: slot, ProposerIndex: 1, ParentRoot: Root32(3), StateRoot: Root32(4), BodyRoot: Root32(fill)}}
 }
 
-var c14Kinds = []string{"double-vote", "d1-surrounds-d2", "d2-surrounds-d1", "double-proposal"}
+// The genesis kinds come first, while the fresh account has no history: two different attestations with source and
+// target epoch 0, two different blocks at slot 0 (the stored value 0 must not read as "nothing signed").  They can be
+// repeated on the same account: whatever was signed in an earlier case, both new duties conflict with it too.
+var c14Kinds = []string{"genesis-double-vote", "slot0-double-proposal", "double-vote", "d1-surrounds-d2", "d2-surrounds-d1", "double-proposal"}
 
 func c14Pair(kind string, base uint64) (c14Duty, c14Duty) {
 	switch kind {
+	case "genesis-double-vote":
+		return c14Att(0, 0, byte(base/10*2+1)), c14Att(0, 0, byte(base/10*2+2))
+	case "slot0-double-proposal":
+		return c14Prop(0, byte(base/10*2+1)), c14Prop(0, byte(base/10*2+2))
 	case "double-vote":
 		return c14Att(base, base+1, 0xaa), c14Att(base, base+1, 0xbb)
 	case "d1-surrounds-d2":
@@ -103,7 +111,11 @@ func C14(cfg Cfg) int {
 				limit = cfg.N(250, 3000)
 			}
 			for _, kind := range c14Kinds {
-				for a := 0; a < limit && run.NumViolations() < 5; a++ {
+				klimit := limit
+				if strings.HasPrefix(kind, "genesis") || strings.HasPrefix(kind, "slot0") {
+					klimit = min(limit, 40)
+				}
+				for a := 0; a < klimit && run.NumViolations() < 5; a++ {
 					assign := a
 					if limit < total {
 						assign = r.Intn(total)
